@@ -1,49 +1,67 @@
-(* C03 - a value that is still reachable is never reclaimed.
-   Property theorems only.  Part 1: the collector (gc.rs), for every heap, every managed set and
-   every root list, cyclic and shared structure included.  Part 2 (VM level) is in C03vm below
-   once the VM model's proofs are in place. *)
-From NL.Spec Require Import GCInv.
-From NL.Proofs Require GCProofs.
+(* C03 - a value that is still reachable is never reclaimed. Property theorems only. Part 1: the collector (gc.rs; proofs/GCProofs.v) for every heap, managed set and root list, cyclic and shared structure included. Part 2: the whole machine (spec/VMInv.v, proofs/VMGCProofs.v): an invariant of ALL reachable VM states under which every value the machine can still use is alive, well-typed and managed, and every collection point keeps everything reachable. *)
+From NL.Model Require Import VM.
+From NL.Spec Require Import GCInv VMInv.
+From NL.Proofs Require GCProofs VMGCProofs.
 Open Scope Z_scope.
 
-(* a collection never gets stuck, never frees twice, never visits a released box, and the
-   recursion fuel (number of managed objects + 1) is never exhausted *)
-Theorem run_no_fault : forall h g roots, GCInv h g -> roots_managed g roots -> roots_ok h roots ->
-  exists g' h', gc_run h g roots = Ok (g', h').
+(* a collection never gets stuck, never frees twice, never visits a released box; the mark recursion's fuel is never exhausted *)
+Theorem run_no_fault : forall (h : heap) (g : gc) (roots : list val), GCInv h g -> roots_managed g roots -> roots_ok h roots -> exists (g' : gc) (h' : heap), gc_run h g roots = Ok (g', h').
 Proof. exact GCProofs.run_no_fault. Qed.
 
-(* THE property: everything reachable from the roots stays allocated and unchanged *)
-Theorem run_preserves_reachable : forall h g roots g' h',
-  GCInv h g -> roots_managed g roots -> roots_ok h roots -> gc_run h g roots = Ok (g', h') ->
-  forall l, reach h roots l -> PM.find l (cells h') = PM.find l (cells h) /\ h_alive h' l = true.
+(* THE collector property: everything reachable from the roots stays allocated and unchanged *)
+Theorem run_preserves_reachable : forall (h : heap) (g : gc) (roots : list val) (g' : gc) (h' : heap), GCInv h g -> roots_managed g roots -> roots_ok h roots -> gc_run h g roots = Ok (g', h') -> forall l : positive, reach h roots l -> PM.find l (cells h') = PM.find l (cells h) /\ h_alive h' l = true.
 Proof. exact GCProofs.run_preserves_reachable. Qed.
 
 (* boxes this collector does not manage are never touched *)
-Theorem run_leaves_unmanaged : forall h g roots g' h',
-  GCInv h g -> roots_managed g roots -> gc_run h g roots = Ok (g', h') ->
-  forall l, ~ managed g l -> PM.find l (cells h') = PM.find l (cells h).
+Theorem run_leaves_unmanaged : forall (h : heap) (g : gc) (roots : list val) (g' : gc) (h' : heap), GCInv h g -> roots_managed g roots -> gc_run h g roots = Ok (g', h') -> forall l : positive, ~ managed g l -> PM.find l (cells h') = PM.find l (cells h).
 Proof. exact GCProofs.run_leaves_unmanaged. Qed.
 
 (* the invariant survives, so the next collection is covered too *)
-Theorem run_keeps_invariant : forall h g roots g' h',
-  GCInv h g -> roots_managed g roots -> roots_ok h roots -> gc_run h g roots = Ok (g', h') ->
-  GCInv h' g'.
+Theorem run_keeps_invariant : forall (h : heap) (g : gc) (roots : list val) (g' : gc) (h' : heap), GCInv h g -> roots_managed g roots -> roots_ok h roots -> gc_run h g roots = Ok (g', h') -> GCInv h' g'.
 Proof. exact GCProofs.run_keeps_invariant. Qed.
 
-(* the mark phase terminates on cycles: the fuel handed to it always suffices *)
-Theorem mark_fuel_suffices : forall h g roots, GCInv h g -> roots_managed g roots ->
-  roots_ok h roots ->
-  forall bits0, bits0 = repeat_val false (length (objects g)) ->
-  exists bits, fold_left (fun acc r => do b <- acc; mark_fuel (S (length (objects g))) h (objects g) b r)
-                         roots (Ok bits0) = Ok bits.
+(* the mark phase terminates on cycles *)
+Theorem mark_fuel_suffices : forall (h : heap) (g : gc) (roots : list val), GCInv h g -> roots_managed g roots -> roots_ok h roots -> forall bits0 : list bool, bits0 = repeat_val false (length (objects g)) -> exists bits : list bool, fold_left (fun (acc : outcome (list bool)) (r : val) => do b <- acc; mark_fuel (S (length (objects g))) h (objects g) b r) roots (Ok bits0) = Ok bits.
 Proof. exact GCProofs.mark_fuel_suffices. Qed.
 
-Check run_preserves_reachable : forall h g roots g' h',
-  GCInv h g -> roots_managed g roots -> roots_ok h roots -> gc_run h g roots = Ok (g', h') ->
-  forall l, reach h roots l -> PM.find l (cells h') = PM.find l (cells h) /\ h_alive h' l = true.
+(* MACHINE level: the invariant holds when a run starts *)
+Theorem vm_inv_initial : forall (code : list Z) (ks : list const) (consts : list val) (h0 : heap), load_consts ks empty_heap = (consts, h0) -> VMInv {| p_code := code; p_consts := consts |} (vm_start vm_new consts h0).
+Proof. exact VMGCProofs.vm_inv_initial. Qed.
+
+(* ... and is preserved by every instruction (all 45 opcodes): in every reachable state every value in the stack, the globals, the constants and the last statement value is alive, of the right kind and managed - root completeness *)
+Theorem vm_inv_step : forall (orc : oracle) (prog : program) (s s' : vm), VMInv prog s -> step orc prog s = Ok (Continue s') -> VMInv prog s'.
+Proof. exact VMGCProofs.vm_inv_step. Qed.
+
+(* so no program ever observes a freed or recycled object and nothing is released twice *)
+Theorem vm_no_heap_fault : forall (orc : oracle) (prog : program) (s : vm), VMInv prog s -> addr_bounded s -> forall f : fault, step orc prog s = Fault f -> non_heap_fault f.
+Proof. exact VMGCProofs.vm_no_heap_fault. Qed.
+
+(* ... for whole runs of the pipeline *)
+Theorem run_no_heap_fault : forall (orc : oracle) (bc : bytecode) (n : nat) (r : outcome val) (out : text) (steps : nat) (oh : outcome heap), run_program orc bc n = {| o_result := r; o_out := out; o_steps := steps; o_heap := oh |} -> Z.of_nat (length (b_constants bc)) + Z.of_nat n + 1 < 2 ^ 60 -> forall f : fault, r = Fault f -> non_heap_fault f.
+Proof. exact VMGCProofs.run_no_heap_fault. Qed.
+
+(* at both collection points (Return, ReturnValue) every location reachable from what the machine keeps is unchanged and alive afterwards *)
+Theorem vm_collect_preserves : forall (orc : oracle) (prog : program) (s s' : vm), VMInv prog s -> at_return prog s -> step orc prog s = Ok (Continue s') -> forall l : positive, reach (v_heap s) (vm_vals prog s') l -> PM.find l (cells (v_heap s')) = PM.find l (cells (v_heap s)) /\ h_alive (v_heap s') l = true.
+Proof. exact VMGCProofs.vm_collect_preserves. Qed.
+
+(* a collection point never runs out of fuel or errs *)
+Theorem vm_return_total : forall (orc : oracle) (prog : program) (s : vm), VMInv prog s -> at_return prog s -> (exists s' : vm, step orc prog s = Ok (Continue s')) \/ (exists f : fault, step orc prog s = Fault f /\ non_heap_fault f).
+Proof. exact VMGCProofs.vm_return_total. Qed.
+
+(* the invariant along whole runs, any budget *)
+Theorem vm_inv_run_loop : forall (orc : oracle) (prog : program) (n : nat) (s : vm) (r : outcome val) (s' : vm) (k : nat), VMInv prog s -> run_loop orc prog n s = (r, s', k) -> match r with | Ok v => VMGCProofs.halted_at prog v s' | _ => VMInv prog s' end.
+Proof. exact VMGCProofs.vm_inv_run_loop. Qed.
+
 
 Print Assumptions run_no_fault.
 Print Assumptions run_preserves_reachable.
 Print Assumptions run_leaves_unmanaged.
 Print Assumptions run_keeps_invariant.
 Print Assumptions mark_fuel_suffices.
+Print Assumptions vm_inv_initial.
+Print Assumptions vm_inv_step.
+Print Assumptions vm_no_heap_fault.
+Print Assumptions run_no_heap_fault.
+Print Assumptions vm_collect_preserves.
+Print Assumptions vm_return_total.
+Print Assumptions vm_inv_run_loop.
